@@ -44,7 +44,7 @@ FINDING_INPUTS = [
     'Y = 1/0', 'Y = CANARY()', '```\nCANARY()\n```', 'Y = print(1)', 'Y = {0}', 'Y = {}', 'Y = {{X}}', 'Y = { }',
     'Y = {[0]}', '1 = X', 'log = log(X)', 'Y = X\n```\nZ = W', '```', '(\n```\ny\n```\n)', 'as[1] = X', '{a} = X',
     '<e> = X', '`a` = X', '(Y X = Z)', 'Y = 1()', 'Y = X\nY = X', 'Y = X +', 'Y = X\n)', '  Y = X', 'Y = (X',
-    'Y = {X', 'if = X', 'Y = X[a]', 'Y = in[1]', '```\n(\n```\nY = X\n)', 'Y = max(X, 0)\nmax = 2', 'Y == X', '```\ns (= 1\n```\nY = X)', 'Y`=`', 'Y = X[`a=1`]',
+    'Y = {X', 'if = X', 'Y = X[a]', 'Y = in[1]', '```\n(\n```\nY = X\n)', 'Y = max(X, 0)\nmax = 2', 'Y == X', '```\ns (= 1\n```\nY = X)', 'Y`=`', 'Y = X[`a=1`]', '\tY = X', 'Y = X\n  Z = 1', '  (Y =\n X)', 'Y = {a}\na = 1', ')', 'Y = X)',
 ]
 
 
@@ -68,7 +68,11 @@ def alpha_impl_pe(i):
 
 
 def compare_texts(texts, rep, strict, stream):
-    """scan / split / parse_equation_text of every text, model vs implementation."""
+    """scan / split / parse_equation_text of every text, model vs implementation.
+    strict=True: exact, nothing skipped (grammar scripts); strict='exact': exact incl. the error class, but inputs
+    outside the model (format spec / symbol stage) are skipped (the documented malformed examples);
+    strict=False: lenient (DESIGN §3.1) — a difference that the accepted / own-error / internal-error abstraction
+    absorbs is recorded as model_drift."""
     lines = []
     for s in texts:
         lines += [lc.line('scan', s), lc.line('split', s), lc.line('parse_equation_text', s)]
@@ -83,7 +87,7 @@ def compare_texts(texts, rep, strict, stream):
             diffs.append(('term_re.finditer vs scanTerms', m_scan, i_scan))
         if m_split != i_split:
             diffs.append(('split_equations_iter vs splitStatements', m_split, i_split))
-        if r_pe == 'disagree' or (strict and r_pe.startswith('skip')):
+        if r_pe == 'disagree' or (strict is True and r_pe.startswith('skip')):
             diffs.append(('parse_equation vs parseEquationText' + (':' + detail if detail else ''), m_pe, repr(i_pe)))
         if not diffs:
             continue
@@ -250,7 +254,7 @@ def run(ctx, rep):
     n_mut = (1000 if quick else 50000) * ctx.scale
     for first in range(0, n_mut, 100):
         tasks.append(('c13:mutants', (f'{ctx.seed}:mut', first, min(100, n_mut - first), oo)))
-    tasks.append(('c13:texts', ('findings', FINDING_INPUTS, False, False, oo)))
+    tasks.append(('c13:texts', ('findings', FINDING_INPUTS, 'exact', False, oo)))
     tasks.append(('c13:texts', ('findings-wellformed', ['T = log(-(0.5 + 2))', 'Y = exp(-(1 + 2)) * X'], True, True, oo)))
     if not oo:
         tasks.append(('c13:aux', (0x3100 if quick else 0x110000, 5 if quick else 6)))
